@@ -83,12 +83,14 @@ class Env:
 
         cls.__new__ = __new__
         self.installed = True
+        _malloc_perturb({"a5": 0xA5, "ff": 0xFF, "prng": 0x5B, "stale": 0x3C}.get(self.fill or "", 0))
         return self
 
     def __exit__(self, *exc: Any) -> None:
         import numpoly
 
         sys.settrace(None)
+        _malloc_perturb(0)
         for mod, name, value in self._patched:
             setattr(mod, name, value)
         self._patched = []
@@ -245,6 +247,22 @@ class Env:
         return real_numpy.sort(a, axis=axis, kind=kind, order=order)
 
 
+_LIBC: Any = None
+
+
+def _malloc_perturb(byte: int) -> None:
+    """glibc M_PERTURB: blocks handed out by malloc are filled with ~byte and freed ones with byte.
+    Reaches the buffers numpy allocates internally (beyond its small-block cache), which the
+    Python-level wrappers cannot poison.  Best effort: silently absent on other C libraries."""
+    global _LIBC
+    try:
+        if _LIBC is None:
+            _LIBC = ctypes.CDLL("libc.so.6")
+        _LIBC.mallopt(-6, int(byte))
+    except Exception:  # noqa: BLE001
+        _LIBC = False
+
+
 def _make_proxy(env: Env) -> types.ModuleType:
     class NumpyProxy(types.ModuleType):
         def __getattr__(self, name: str) -> Any:  # only for names not set below
@@ -306,3 +324,30 @@ class LineTracer:
             return func()
         finally:
             sys.settrace(None)
+
+
+def scan_method_sorts(numpoly_dir: str) -> List[str]:
+    """Static probe: method-form sorts (``arr.argsort()``, ``arr.sort()``) cannot
+    be intercepted by the module-global numpy proxy; list them so evidence can say
+    where the tie-order stand-in is bypassed (the check stays sound there, it only
+    sees this platform's real tie order)."""
+    import ast
+    import os
+
+    found: List[str] = []
+    for root, _dirs, files in os.walk(numpoly_dir):
+        for name in sorted(files):
+            if not name.endswith(".py"):
+                continue
+            path = os.path.join(root, name)
+            try:
+                tree = ast.parse(open(path).read())
+            except (OSError, SyntaxError):
+                continue
+            for node in ast.walk(tree):
+                if isinstance(node, ast.Call) and isinstance(node.func, ast.Attribute) and node.func.attr in ("argsort", "sort", "argpartition", "partition"):
+                    base = node.func.value
+                    if isinstance(base, ast.Name) and base.id in ("numpy", "np"):
+                        continue
+                    found.append(f"{os.path.relpath(path, numpoly_dir)}:{node.lineno}")
+    return sorted(found)
